@@ -222,3 +222,24 @@ contract(U + "BracketBase.match",
     raises={"*": {}},
     serves=["C02", "C08"],
 )
+
+# U14: KeywordValueBase.match with a keyword on the left - "KEYWORD = value" (C02: the value text is handed on whole)
+contract(U + "KeywordValueBase.match@keyword",
+    types=dict(lhs_cls="str", rhs_cls="cls", string="str", require_lhs="bool", upper_lhs="bool"),
+    defaults=dict(require_lhs=True, upper_lhs=False),
+    returns="tuple[str?,ref:Base]?",
+    requires={"a_keyword_is_given": "lhs_cls != ''"},
+    modifies=["rule_evals"],
+    calls={"rhs_cls": "proto:operand_rule"},
+    ensures={
+        "keyword_required": "implies(require_lhs and '=' not in string, result is None)",
+        "keyword_is_the_text_before_the_first_equals": "implies(result is not None and nonnull(result)[0] is not None, '=' in string and nonnull(nonnull(result)[0]) == lhs_cls and "
+                "lhs_cls == (string[:string.find('=')].strip().upper() if upper_lhs else string[:string.find('=')].strip()))",
+        "value_is_everything_after_the_first_equals": "implies(result is not None and nonnull(result)[0] is not None, rule_cls(nonnull(result)[1]) == rhs_cls and "
+                "rule_text(nonnull(result)[1]) == string[string.find('=') + 1:].strip())",
+        "without_keyword_the_whole_text_is_the_value": "implies(result is not None and nonnull(result)[0] is None, not require_lhs and "
+                "rule_cls(nonnull(result)[1]) == rhs_cls and rule_text(nonnull(result)[1]) == string.strip())",
+    },
+    raises={"*": {}},
+    serves=["C02"],
+)
